@@ -25,6 +25,7 @@ import (
 	"go/constant"
 	"go/token"
 	"go/types"
+	"math/big"
 	"sort"
 	"strings"
 
@@ -44,6 +45,7 @@ type callSpec struct {
 	tail    string                              // constructor applied to the effect state for a call in tail position (the function ends with it)
 	spread  bool                                // the call may pass its last argument with ... (the template sees the slice)
 	check   func(x *tr, c *ast.CallExpr) string // extra condition on the call; non-empty = why it is outside the fragment
+	unwrap  bool                                // f(g(..)) as a statement is the statement g(..): f only inspects the error g returns
 }
 
 type target struct {
@@ -62,16 +64,21 @@ type target struct {
 	fallback string
 
 	// second generation
-	file    string              // generated file (Gen/<file>.v); "" = Decisions
-	strict  bool                // see the head of this file
-	tymap   map[string]string   // Go type, printed relative to package slog -> Coq type
-	calls   map[string]callSpec // callee key -> rendering
-	effects []string            // effect-state binders threaded through, e.g. tr_ k_
-	panicT  string              // what panic(..) and a failed partial operation yield ("" = ActPanic)
-	retfmt  string              // wrapper of returned values, e.g. "Some (%s)"
-	nilTest map[string]string   // Coq type -> nil test function (default is_nil)
-	fields  map[string]string   // field name -> accessor function for fields of non-receiver values
-	globals []string            // names defined in the imported Coq files that the renderings may mention
+	file     string              // generated file (Gen/<file>.v); "" = Decisions
+	strict   bool                // see the head of this file
+	tymap    map[string]string   // Go type, printed relative to package slog -> Coq type
+	calls    map[string]callSpec // callee key -> rendering
+	effects  []string            // effect-state binders threaded through, e.g. tr_ k_
+	panicT   string              // what panic(..) and a failed partial operation yield ("" = ActPanic)
+	retfmt   string              // wrapper of returned values, e.g. "Some (%s)"
+	nilTest  map[string]string   // Coq type -> nil test function (default is_nil)
+	fields   map[string]string   // field name -> accessor function for fields of non-receiver values
+	globals  []string            // names defined in the imported Coq files that the renderings may mention
+	fuels    []string            // fuel (a nat term over the names in scope at loop entry) of the i-th three-clause for loop, in source order
+	closures map[string]string   // local function values: name -> the exact source text the declaration in calls[name] stands for
+	auto     bool                // undeclared calls of plain functions of the package are translated too, as auxiliary definitions aux_<name>
+	retTy    string              // Coq type of the returned value (inside retfmt): needed for a return inside a for loop
+	isAux    bool
 }
 
 type untranslatable struct{ why string }
@@ -79,7 +86,10 @@ type untranslatable struct{ why string }
 type pend struct{ name, term string }
 
 // what continue / break / return mean inside the loop body being translated (nil = not available)
-type loopCtx struct{ cont, brk, ret func() string }
+type loopCtx struct {
+	cont, brk, ret func() string
+	retv           func(v string) string // return of a value out of a for loop
+}
 
 type tr struct {
 	t        *target
@@ -93,6 +103,11 @@ type tr struct {
 	npend    int
 	loops    []*loopCtx
 	optLoop  int      // > 0: inside the body of a loop that folds over option state
+	panics   []string // innermost last: what a panic yields inside the loop bodies being translated
+	forIdx   map[*ast.ForStmt]int
+	closed   map[types.Object]bool // local function values accepted as declared closures
+	aux      []string              // auxiliary definitions (helpers translated on the way), in order
+	auxName  map[*types.Func]string
 	named    []string // Coq names of the named results (strict)
 	namedPos map[string]token.Pos
 	ignored  map[types.Object]bool
@@ -144,7 +159,7 @@ var reserved = map[string]bool{
 	"if": true, "then": true, "else": true, "return": true, "forall": true, "exists": true, "Type": true, "Set": true, "Prop": true,
 	"Some": true, "None": true, "true": true, "false": true, "tt": true, "unit": true, "bool": true, "nat": true, "list": true,
 	"option": true, "byte": true, "bytes": true, "Z": true, "N": true, "S": true, "O": true, "error": true, "member": true,
-	"tr_": true, "k_": true, "st_": true, "brk_": true, "ret_": true,
+	"tr_": true, "k_": true, "st_": true, "brk_": true, "ret_": true, "rv_": true,
 }
 
 func (x *tr) ident(name string) string {
@@ -240,6 +255,30 @@ func (x *tr) coqType(t types.Type) string {
 	return "?"
 }
 
+// intBits: signedness and width of an integer kind (0 = not a sized integer); int = int64 on the
+// platforms the library is checked on
+func intBits(b *types.Basic) (signed bool, bits int) {
+	switch b.Kind() {
+	case types.Int8:
+		return true, 8
+	case types.Int16:
+		return true, 16
+	case types.Int32:
+		return true, 32
+	case types.Int, types.Int64:
+		return true, 64
+	case types.Uint8:
+		return false, 8
+	case types.Uint16:
+		return false, 16
+	case types.Uint32:
+		return false, 32
+	case types.Uint, types.Uint64, types.Uintptr:
+		return false, 64
+	}
+	return false, 0
+}
+
 func paren(s string) string {
 	if strings.Contains(s, " ") && !strings.HasPrefix(s, "(") {
 		return "(" + s + ")"
@@ -314,6 +353,9 @@ func scrut(t string) string {
 }
 
 func (x *tr) panicTerm() string {
+	if len(x.panics) > 0 {
+		return x.panics[len(x.panics)-1] // inside the step function of a loop
+	}
 	if x.optLoop > 0 {
 		return "None" // the step of a fold over option state
 	}
@@ -367,6 +409,9 @@ func (x *tr) hoistDone(mark int) {
 func (x *tr) callKey(c *ast.CallExpr) string {
 	switch f := c.Fun.(type) {
 	case *ast.Ident:
+		if obj, ok := x.p.TypesInfo.Uses[f].(*types.Var); ok && x.t.strict && !x.closed[obj] {
+			return "" // a function value that is not a declared closure
+		}
 		return f.Name
 	case *ast.SelectorExpr:
 		if sel, ok := x.p.TypesInfo.Selections[f]; ok {
@@ -635,6 +680,29 @@ func (x *tr) expr(e ast.Expr) string {
 		if x.t.strict && k != x.kindOf(z.Y) {
 			x.bad(z, "operands of different translated types")
 		}
+		if x.t.strict && (z.Op == token.SHR || z.Op == token.SHL || z.Op == token.ADD || z.Op == token.SUB || z.Op == token.MUL) && k == "Z" {
+			// fixed-width arithmetic: + - << can wrap in Go, the translation is on Z.  Accepted on int / int64
+			// (unbounded by the convention of DESIGN.md 2.1); >> never wraps but needs a count >= 0
+			lt, _ := x.p.TypesInfo.TypeOf(z.X).Underlying().(*types.Basic)
+			wide := lt != nil && (lt.Kind() == types.Int || lt.Kind() == types.Int64 || lt.Kind() == types.UntypedInt || lt.Kind() == types.UntypedRune)
+			switch z.Op {
+			case token.SHR:
+				rt, _ := x.p.TypesInfo.TypeOf(z.Y).Underlying().(*types.Basic)
+				if tv, ok := x.p.TypesInfo.Types[z.Y]; ok && tv.Value != nil {
+					return "(Z.shiftr " + a + " " + b + ")" // a constant count (the compiler rejects a negative one)
+				}
+				if rt == nil || rt.Info()&types.IsUnsigned == 0 {
+					x.bad(z, "shift by a signed count (panics when negative)")
+				}
+				return "(Z.shiftr " + a + " " + b + ")"
+			case token.SHL:
+				x.bad(z, "left shift (can overflow)")
+			default:
+				if !wide {
+					x.bad(z, "arithmetic on a fixed-width type narrower than int (can wrap)")
+				}
+			}
+		}
 		switch z.Op {
 		case token.LAND, token.LOR:
 			if len(x.pending) > mark {
@@ -706,6 +774,10 @@ func (x *tr) expr(e ast.Expr) string {
 			return "(" + a + " + " + b + ")"
 		case token.SUB:
 			return "(" + a + " - " + b + ")"
+		case token.MUL:
+			if x.t.strict {
+				return "(" + a + " * " + b + ")"
+			}
 		}
 	case *ast.SliceExpr:
 		// t[:n] / t[n:] on a string: panics outside 0..len(t)
@@ -715,10 +787,24 @@ func (x *tr) expr(e ast.Expr) string {
 		if x.t.strict && z.Low != nil && z.High == nil && !z.Slice3 && x.kindOf(z.X) == "bytes" && x.kindOf(z.Low) == "Z" {
 			return x.partial("str_suffix " + paren(x.expr(z.X)) + " " + paren(x.expr(z.Low)))
 		}
+		if x.t.strict && z.Low != nil && z.High != nil && !z.Slice3 && x.kindOf(z.X) == "bytes" && x.kindOf(z.Low) == "Z" && x.kindOf(z.High) == "Z" {
+			return x.partial("str_slice " + paren(x.expr(z.X)) + " " + paren(x.expr(z.Low)) + " " + paren(x.expr(z.High)))
+		}
 	case *ast.IndexExpr:
 		// s[i] on a string: the byte as a number; panics outside 0..len(s)-1
 		if x.t.strict && x.kindOf(z.X) == "bytes" && x.kindOf(z.Index) == "Z" {
 			return x.partial("str_at " + paren(x.expr(z.X)) + " " + paren(x.expr(z.Index)))
+		}
+		// a[i] on a package-level array given by a keyed literal: the table binder m_<name> holds the
+		// keyed elements, the others are the zero value; panics outside 0..len(a)-1
+		if x.t.strict && x.kindOf(z.Index) == "Z" {
+			if name := x.pkgVar(z.X); name != "" {
+				if at, ok := x.p.TypesInfo.TypeOf(z.X).Underlying().(*types.Array); ok {
+					if ek := x.coqType(at.Elem()); ek != "?" {
+						return x.partial(fmt.Sprintf("arr_get %d %s %s %s", at.Len(), x.use("m_"+name), x.zeroOfKind(ek, z), paren(x.expr(z.Index))))
+					}
+				}
+			}
 		}
 	case *ast.CallExpr:
 		key := x.callKey(z)
@@ -756,6 +842,24 @@ func (x *tr) expr(e ast.Expr) string {
 				}
 			case "append":
 				// append(a, b...) / append(a, x, y): the value; the translation has no aliasing to lose
+				if k := x.kindOf(z.Args[0]); k == "bytes" && len(z.Args) >= 2 {
+					a := x.expr(z.Args[0])
+					if z.Ellipsis != token.NoPos {
+						if len(z.Args) == 2 && x.kindOf(z.Args[1]) == "bytes" {
+							return "(" + a + " ++ " + x.expr(z.Args[1]) + ")"
+						}
+					} else {
+						var els []string
+						for _, e := range z.Args[1:] {
+							bt, _ := x.p.TypesInfo.TypeOf(e).Underlying().(*types.Basic)
+							if bt == nil || (bt.Kind() != types.Uint8 && bt.Kind() != types.UntypedRune && bt.Kind() != types.UntypedInt) {
+								x.bad(z, "append of something that is not a byte")
+							}
+							els = append(els, "zb "+paren(x.expr(e))) // a byte-typed expression is in 0..255
+						}
+						return "(" + a + " ++ [" + strings.Join(els, "; ") + "])"
+					}
+				}
 				if k := x.kindOf(z.Args[0]); strings.HasPrefix(k, "list ") && len(z.Args) >= 2 {
 					a := x.expr(z.Args[0])
 					if z.Ellipsis != token.NoPos {
@@ -788,9 +892,26 @@ func (x *tr) expr(e ast.Expr) string {
 				// same underlying kind as the argument
 				if b, ok := tv.Type.Underlying().(*types.Basic); ok && x.coqType(tv.Type) == "Z" && x.kindOf(z.Args[0]) == "Z" {
 					ab, _ := x.p.TypesInfo.TypeOf(z.Args[0]).Underlying().(*types.Basic)
-					if b.Kind() == types.Int || b.Kind() == types.Int64 || (ab != nil && ab.Kind() == b.Kind()) {
+					if ab != nil && ab.Kind() == b.Kind() {
 						return x.expr(z.Args[0])
 					}
+					// into a wider or equal range: the identity; into an unsigned type: modulo 2^bits
+					// (uint / uintptr are 64 bits: amd64 / arm64); a narrowing signed conversion is rejected
+					ds, dbits := intBits(b)
+					if ab != nil && dbits > 0 {
+						ss, sbits := intBits(ab)
+						if sbits > 0 && ((ss == ds && sbits <= dbits) || (!ss && ds && sbits < dbits)) {
+							return x.expr(z.Args[0])
+						}
+						if !ds {
+							return fmt.Sprintf("(%s mod %d)", x.expr(z.Args[0]), new(big.Int).Lsh(big.NewInt(1), uint(dbits)))
+						}
+					}
+				}
+			}
+			if x.t.auto {
+				if t := x.autoCall(z); t != "" {
+					return t
 				}
 			}
 			x.bad(z, "call outside the fragment ("+key+")")
@@ -975,7 +1096,11 @@ func (x *tr) outerAssigned(stmts []ast.Stmt) []string {
 	if len(stmts) == 0 {
 		return nil
 	}
-	lo, hi := stmts[0].Pos(), stmts[len(stmts)-1].End()
+	return x.outerAssignedIn(stmts, stmts[0].Pos(), stmts[len(stmts)-1].End())
+}
+
+// outerAssignedIn: the same, "declared inside" meaning declared between lo and hi
+func (x *tr) outerAssignedIn(stmts []ast.Stmt, lo, hi token.Pos) []string {
 	seen := map[string]bool{}
 	var out []string
 	pos := map[string]token.Pos{}
@@ -1051,8 +1176,8 @@ func (x *tr) abrupt(stmts []ast.Stmt) bool {
 	for _, s := range stmts {
 		ast.Inspect(s, func(n ast.Node) bool {
 			switch z := n.(type) {
-			case *ast.ReturnStmt, *ast.BranchStmt, *ast.GoStmt, *ast.DeferStmt, *ast.FuncLit, *ast.LabeledStmt, *ast.SelectStmt:
-				found = true
+			case *ast.ReturnStmt, *ast.BranchStmt, *ast.GoStmt, *ast.DeferStmt, *ast.FuncLit, *ast.LabeledStmt, *ast.SelectStmt, *ast.ForStmt:
+				found = true // (a three-clause loop can run out of its declared fuel: that ends the function like a panic)
 			case *ast.CallExpr:
 				switch key := x.callKey(z); key {
 				case "panic", "os.Exit", "strings.Repeat":
@@ -1114,7 +1239,22 @@ func cat(a []ast.Stmt, b []ast.Stmt) []ast.Stmt { return append(append([]ast.Stm
 // effectCall renders a call statement / call assignment with a declared rendering.
 // lhs: the Coq names receiving the results (may be empty).
 func (x *tr) effectCall(c *ast.CallExpr, cs callSpec, lhs []string, n ast.Node, tail func() string) string {
-	x.checkArgs(c)
+	if c.Ellipsis != token.NoPos && !cs.spread {
+		x.bad(c, "call with a spread argument")
+	}
+	amark := len(x.pending)
+	args := make([]string, len(c.Args))
+	for i, a := range c.Args {
+		args[i] = x.expr(a) // every argument must be in the fragment, also the ones the rendering drops
+	}
+	if len(x.pending) > amark {
+		inner := tail
+		return x.hoistStmt(amark, func() string { return x.effectCallWith(c, cs, lhs, n, args, inner) })
+	}
+	return x.effectCallWith(c, cs, lhs, n, args, tail)
+}
+
+func (x *tr) effectCallWith(c *ast.CallExpr, cs callSpec, lhs []string, n ast.Node, args []string, tail func() string) string {
 	if se, ok := c.Fun.(*ast.SelectorExpr); ok {
 		if _, isSel := x.p.TypesInfo.Selections[se]; isSel && x.pkgVar(se.X) == "" {
 			if id, ok := se.X.(*ast.Ident); !ok || id.Name != x.recv { // (a method of the receiver itself: the declaration says what it reads)
@@ -1131,7 +1271,12 @@ func (x *tr) effectCall(c *ast.CallExpr, cs callSpec, lhs []string, n ast.Node, 
 		return tail()
 	case cs.state != "":
 		names := append(append([]string{}, lhs...), x.t.effects...)
-		return x.letTuple(names, x.fill(cs.state, c), tail)
+		if cs.partial {
+			// the callee can panic (None): that ends this function too
+			return fmt.Sprintf("match %s with\n  | None => %s\n  | Some %s => %s\n  end",
+				x.fillWith(cs.state, c, args), x.panicTerm(), patTuple(names), x.bind(names, tail))
+		}
+		return x.letTuple(names, x.fillWith(cs.state, c, args), tail)
 	case cs.pure != "":
 		if len(lhs) == 0 {
 			x.bad(n, "value of a pure call is dropped")
@@ -1152,7 +1297,7 @@ func (x *tr) effectCall(c *ast.CallExpr, cs callSpec, lhs []string, n ast.Node, 
 		}
 		if cs.ev != "" {
 			h := g
-			ev := x.fill(cs.ev, c)
+			ev := x.fillWith(cs.ev, c, args)
 			g = func() string { return x.let("tr_", "tr_ ++ ["+ev+"]", h) }
 		}
 		return g()
@@ -1162,7 +1307,7 @@ func (x *tr) effectCall(c *ast.CallExpr, cs callSpec, lhs []string, n ast.Node, 
 			// results dropped by the caller: still an attempt
 			return f()
 		}
-		return x.letTuple(lhs, x.fill(cs.res, c), f)
+		return x.letTuple(lhs, x.fillWith(cs.res, c, args), f)
 	}
 	if len(lhs) > 0 {
 		x.bad(n, "result of a call whose declaration has no result")
@@ -1386,6 +1531,14 @@ func (x *tr) seq(stmts []ast.Stmt, k func() string) string {
 			// return inside a loop: Go assigns the values to the named results, the fold stops and
 			// the function ends with them
 			lc := x.loops[len(x.loops)-1]
+			if lc.retv != nil && len(z.Results) > 0 {
+				mark := len(x.pending)
+				var vals []string
+				for _, r := range z.Results {
+					vals = append(vals, x.expr(r))
+				}
+				return x.hoistStmt(mark, func() string { return lc.retv(tuple(vals)) })
+			}
 			if lc.ret == nil || (len(z.Results) > 0 && len(z.Results) != len(x.named)) {
 				x.bad(z, "return inside a loop of a function without named results")
 			}
@@ -1415,6 +1568,11 @@ func (x *tr) seq(stmts []ast.Stmt, k func() string) string {
 		if c, ok := z.X.(*ast.CallExpr); ok {
 			if x.t.strict {
 				key := x.callKey(c)
+				if cs, ok := x.t.calls[key]; ok && cs.unwrap && len(c.Args) == 1 {
+					if inner, isCall := c.Args[0].(*ast.CallExpr); isCall {
+						c, key = inner, x.callKey(inner)
+					}
+				}
 				if cs, ok := x.t.calls[key]; ok {
 					if cs.tail != "" {
 						x.checkArgs(c)
@@ -1483,6 +1641,17 @@ func (x *tr) seq(stmts []ast.Stmt, k func() string) string {
 		return fmt.Sprintf("if %s\n  then %s\n  else %s", c, th, el)
 	case *ast.SwitchStmt:
 		return x.switchStmt(z, rest, k)
+	case *ast.ForStmt:
+		if x.t.strict {
+			if z.Init != nil {
+				// for INIT; COND; POST {..}  =  INIT; for ; COND; POST {..}  (shadowing is handled by objName)
+				plain := *z
+				plain.Init = nil
+				x.forIdx[&plain] = x.forIdx[z]
+				return x.seq(cat([]ast.Stmt{z.Init, &plain}, rest), k)
+			}
+			return x.forStrict(z, tail)
+		}
 	case *ast.RangeStmt:
 		if x.t.strict {
 			return x.rangeStrict(z, tail)
@@ -1537,6 +1706,35 @@ func (x *tr) seq(stmts []ast.Stmt, k func() string) string {
 
 // assignStrict: assignments of the second-generation targets
 func (x *tr) assignStrict(z *ast.AssignStmt, tail func() string) string {
+	// name := func(..) {..}: accepted only if the target declares that closure with exactly this text
+	// (its rendering is calls[name]); the variable must not be assigned again
+	if len(z.Lhs) == 1 && len(z.Rhs) == 1 && z.Tok == token.DEFINE {
+		if fl, ok := z.Rhs[0].(*ast.FuncLit); ok {
+			id, _ := z.Lhs[0].(*ast.Ident)
+			if id == nil {
+				x.bad(z, "function literal")
+			}
+			want, ok := x.t.closures[id.Name]
+			norm := func(t string) string { return strings.Join(strings.Fields(t), " ") }
+			if !ok || norm(want) != norm(src(fl)) {
+				x.bad(z, "function literal that is not a closure the target declares")
+			}
+			obj := x.p.TypesInfo.Defs[id]
+			ast.Inspect(x.fd.Body, func(n ast.Node) bool {
+				if as, isAs := n.(*ast.AssignStmt); isAs && as != z {
+					for _, l := range as.Lhs {
+						if li, isId := l.(*ast.Ident); isId && x.p.TypesInfo.ObjectOf(li) == obj {
+							x.bad(as, "a declared closure is assigned again")
+						}
+					}
+				}
+				return true
+			})
+			x.closed[obj] = true
+			x.notes = append(x.notes, "closure (declared): "+clip(src(z)))
+			return tail()
+		}
+	}
 	// call with a declared rendering on the right
 	if len(z.Rhs) == 1 {
 		if c, ok := z.Rhs[0].(*ast.CallExpr); ok {
@@ -1545,13 +1743,18 @@ func (x *tr) assignStrict(z *ast.AssignStmt, tail func() string) string {
 					x.bad(z, "assignment operator with a call that has effects")
 				}
 				var lhs []string
+				blank := true
 				for _, l := range z.Lhs {
 					if id, ok := l.(*ast.Ident); ok && id.Name == "_" {
 						lhs = append(lhs, "_")
 						continue
 					}
+					blank = false
 					nm, _ := x.lhsName(l)
 					lhs = append(lhs, nm)
+				}
+				if blank {
+					lhs = nil // _, _ = f(..): the statement f(..)
 				}
 				return x.effectCall(c, cs, lhs, z, tail)
 			}
@@ -2094,6 +2297,204 @@ func (x *tr) rangeStrict(z *ast.RangeStmt, tail func() string) string {
 	return x.letTuple(all, fmt.Sprintf("fold_left %s %s %s", lam, coll, tuple(init)), after)
 }
 
+// forStrict: for ; COND; POST { BODY } as go_loop FUEL step state: the step function tests COND, runs BODY
+// and POST on the tuple of the variables they assign; the fuel is the target's declaration for this loop
+// (fuels[i]); running out of it ends the function like a panic, so the C.._gen_* theorem, which shows that
+// the function returns what the model returns, also shows that the declared fuel suffices.
+func (x *tr) forStrict(z *ast.ForStmt, tail func() string) string {
+	if x.t.panicT == "" {
+		x.bad(z, "for loop in a target without a panic outcome")
+	}
+	fuel := ""
+	if idx, ok := x.forIdx[z]; ok && idx < len(x.t.fuels) {
+		fuel = x.t.fuels[idx]
+	}
+	hasRet := false
+	ast.Inspect(z.Body, func(n ast.Node) bool {
+		switch b := n.(type) {
+		case *ast.ReturnStmt:
+			hasRet = true
+			if x.t.retTy == "" || len(b.Results) == 0 {
+				x.bad(z, "return inside a for loop of a target without a declared result type")
+			}
+		case *ast.BranchStmt:
+			if b.Label != nil || (b.Tok != token.CONTINUE && b.Tok != token.BREAK) {
+				x.bad(z, "labelled branch / goto inside a loop")
+			}
+		case *ast.ForStmt, *ast.RangeStmt, *ast.SelectStmt, *ast.FuncLit:
+			if n != ast.Node(z.Body) {
+				x.bad(z, "nested loop / select / function literal")
+			}
+		}
+		return true
+	})
+	stmts := append([]ast.Stmt{}, z.Body.List...)
+	var post []ast.Stmt
+	if z.Post != nil {
+		post = []ast.Stmt{z.Post}
+	}
+	vars := x.outerAssignedIn(append(stmts, post...), z.Body.Pos(), z.Body.End())
+	if len(vars) == 0 {
+		x.bad(z, "loop without a tracked effect")
+	}
+	for _, v := range vars {
+		x.use(v)
+	}
+	if fuel == "" {
+		fuel = x.countingFuel(z, vars)
+	}
+	inner := vars
+	if hasRet {
+		// rv_: the value returned out of the loop, if any
+		vars = append(append([]string{}, vars...), "rv_")
+	}
+	st := tuple(vars)
+	lc := &loopCtx{
+		cont: func() string { return x.seq(post, func() string { return "LoopNext " + paren(tuple(vars)) }) },
+		brk:  func() string { return "LoopDone " + paren(tuple(vars)) },
+	}
+	if hasRet {
+		lc.retv = func(v string) string {
+			return "LoopDone " + paren(tuple(append(append([]string{}, inner...), "Some "+paren(v))))
+		}
+	}
+	x.loops = append(x.loops, lc)
+	x.panics = append(x.panics, "LoopPanic")
+	body := x.bind(vars, func() string {
+		if z.Cond == nil {
+			return x.seq(stmts, lc.cont)
+		}
+		mark := len(x.pending)
+		c := x.expr(z.Cond)
+		return x.hoistStmt(mark, func() string {
+			return fmt.Sprintf("if %s\n  then %s\n  else %s", c, x.seq(stmts, lc.cont), lc.brk())
+		})
+	})
+	x.panics = x.panics[:len(x.panics)-1]
+	x.loops = x.loops[:len(x.loops)-1]
+	lam := ""
+	if len(vars) == 1 {
+		lam = fmt.Sprintf("(fun %s => %s)", vars[0], body)
+	} else {
+		lam = fmt.Sprintf("(fun st_ => let '%s := st_ in\n  %s)", st, body)
+	}
+	rest := x.bind(vars, tail)
+	init := st
+	if hasRet {
+		init = tuple(append(append([]string{}, inner...), "(@None "+paren(x.t.retTy)+")"))
+		wrapped := "rv_"
+		if x.t.retfmt != "" {
+			wrapped = fmt.Sprintf(x.t.retfmt, "rv_")
+		}
+		rest = fmt.Sprintf("match rv_ with\n  | Some rv_ => %s\n  | None => %s\n  end", wrapped, rest)
+	}
+	return fmt.Sprintf("match go_loop (%s) %s %s with\n  | None => %s\n  | Some %s => %s\n  end",
+		fuel, lam, init, x.panicTerm(), patTuple(vars), rest)
+}
+
+// autoCall: an undeclared call of a plain function of the package (no receiver, parameters and one result
+// of translatable basic types): the function is translated as an auxiliary definition aux_<name> with
+// the table / oracle binders of the calling target passed through, and the call is a partial operation
+// (None = the helper panics or runs out of fuel).
+func (x *tr) autoCall(c *ast.CallExpr) string {
+	id, ok := c.Fun.(*ast.Ident)
+	if !ok {
+		return ""
+	}
+	fn, ok := x.p.TypesInfo.Uses[id].(*types.Func)
+	if !ok || fn.Pkg() != x.p.Types {
+		return ""
+	}
+	sig := fn.Type().(*types.Signature)
+	if sig.Recv() != nil || sig.Variadic() || sig.Results().Len() != 1 || c.Ellipsis != token.NoPos {
+		return ""
+	}
+	var pass []string // binders handed through
+	for _, b := range x.t.params {
+		parts := strings.SplitN(b[1:len(b)-1], ":", 2)
+		ty := strings.TrimSpace(parts[1])
+		for _, n := range strings.Fields(parts[0]) {
+			if strings.HasPrefix(n, "g_") || strings.HasPrefix(n, "m_") || strings.HasPrefix(n, "f_") || strings.Contains(ty, "->") {
+				pass = append(pass, "("+n+" : "+ty+")")
+			}
+		}
+	}
+	name, done := x.auxName[fn]
+	if !done {
+		rt := x.coqType(sig.Results().At(0).Type())
+		if rt == "?" {
+			x.bad(c, "helper "+fn.Name()+": result type outside the fragment")
+		}
+		ps := append([]string{}, pass...)
+		for i := 0; i < sig.Params().Len(); i++ {
+			p := sig.Params().At(i)
+			k := x.coqType(p.Type())
+			if k == "?" || p.Name() == "" || p.Name() == "_" {
+				x.bad(c, "helper "+fn.Name()+": parameter type outside the fragment")
+			}
+			ps = append(ps, "("+x.ident(p.Name())+" : "+k+")")
+		}
+		name = "aux_" + x.t.coq + "_" + fn.Name()
+		at := &target{pkg: x.t.pkg, recv: "", fn: fn.Name(), coq: name, strict: true, auto: false, isAux: true,
+			comment: "(helper met on the way; None = panic / out of fuel)", panicT: "None", retfmt: "Some (%s)", retTy: rt,
+			tymap: x.t.tymap, calls: x.t.calls, params: ps, result: "option " + paren(rt), final: "None", globals: x.t.globals}
+		def, ok, why := translate(at)
+		if !ok {
+			x.bad(c, "helper "+fn.Name()+": "+why)
+		}
+		x.aux = append(x.aux, def)
+		x.auxName[fn] = name
+	}
+	var args []string
+	for _, b := range pass {
+		args = append(args, strings.Fields(b[1:])[0])
+	}
+	for _, a := range c.Args {
+		args = append(args, paren(x.expr(a)))
+	}
+	return x.partial(name + " " + strings.Join(args, " "))
+}
+
+// countingFuel: for ..; i < B; i++ { body } where the body assigns neither i nor anything B reads runs at
+// most B - i rounds: fuel = S (Z.to_nat (B - i)) at loop entry.  (A wrong bound could only make the
+// generated function return None, never a wrong value.)
+func (x *tr) countingFuel(z *ast.ForStmt, vars []string) string {
+	be, ok := z.Cond.(*ast.BinaryExpr)
+	if !ok || be.Op != token.LSS {
+		x.bad(z, "for loop without a declared fuel")
+	}
+	id, ok := be.X.(*ast.Ident)
+	inc, isInc := z.Post.(*ast.IncDecStmt)
+	if !ok || !isInc || inc.Tok != token.INC || src(inc.X) != id.Name || x.kindOf(id) != "Z" || x.kindOf(be.Y) != "Z" {
+		x.bad(z, "for loop without a declared fuel")
+	}
+	iname := x.objName(x.p.TypesInfo.Uses[id], id.Name)
+	bodyVars := x.outerAssignedIn(z.Body.List, z.Body.Pos(), z.Body.End())
+	assigned := map[string]bool{}
+	for _, v := range bodyVars {
+		assigned[v] = true
+	}
+	bad := assigned[iname]
+	ast.Inspect(be.Y, func(n ast.Node) bool {
+		if u, ok := n.(*ast.Ident); ok {
+			if obj, isVar := x.p.TypesInfo.Uses[u].(*types.Var); isVar && assigned[x.objName(obj, u.Name)] {
+				bad = true
+			}
+		}
+		if cl, isCall := n.(*ast.CallExpr); isCall && x.callKey(cl) != "len" {
+			bad = true
+		}
+		return true
+	})
+	if bad {
+		x.bad(z, "for loop without a declared fuel")
+	}
+	mark := len(x.pending)
+	b := x.expr(be.Y)
+	x.noPending(mark, z)
+	return "S (Z.to_nat (" + b + " - " + x.use(iname) + "))"
+}
+
 func patTuple(names []string) string {
 	if len(names) == 1 {
 		return names[0]
@@ -2131,7 +2532,16 @@ func translate(t *target) (def string, ok bool, why string) {
 	if fd == nil {
 		return "", false, "function not found"
 	}
-	x := &tr{t: t, p: p, fd: fd, free: map[string]bool{}, bound: map[string]int{}, ignored: map[types.Object]bool{}, names: map[types.Object]string{}, namedPos: map[string]token.Pos{}}
+	x := &tr{t: t, p: p, fd: fd, free: map[string]bool{}, bound: map[string]int{}, ignored: map[types.Object]bool{}, names: map[types.Object]string{}, namedPos: map[string]token.Pos{},
+		forIdx: map[*ast.ForStmt]int{}, closed: map[types.Object]bool{}, auxName: map[*types.Func]string{}}
+	nfor := 0
+	ast.Inspect(fd.Body, func(n ast.Node) bool {
+		if f, ok := n.(*ast.ForStmt); ok {
+			x.forIdx[f] = nfor
+			nfor++
+		}
+		return true
+	})
 	x.fscope = p.TypesInfo.Scopes[fd.Type]
 	if fd.Recv != nil && len(fd.Recv.List[0].Names) > 0 {
 		x.recv = fd.Recv.List[0].Names[0].Name
@@ -2226,7 +2636,7 @@ func translate(t *target) (def string, ok bool, why string) {
 		}
 		notes += "   (* " + strings.ReplaceAll(n, "*)", "* )") + " *)\n"
 	}
-	return fmt.Sprintf("(* %s.%s  %s *)\n%sDefinition %s %s : %s :=\n  %s.\n", t.recv, t.fn, t.comment, notes, t.coq, strings.Join(t.params, " "), t.result, body), true, ""
+	return strings.Join(x.aux, "\n") + fmt.Sprintf("(* %s.%s  %s *)\n%sDefinition %s %s : %s :=\n  %s.\n", t.recv, t.fn, t.comment, notes, t.coq, strings.Join(t.params, " "), t.result, body), true, ""
 }
 
 // reindent lays the generated term out by the nesting of match .. end and of parentheses
